@@ -79,6 +79,13 @@ def scenario(desc):
             # the retention setting is edited between runs (still >= 2)
             r.cfg["max_retained_runs"] = maxr
             r.write_cfg()
+        detected = desc.get("victim") == "detected"
+        if detected:
+            # the victim selects its targets by change detection: the file recorded as pending is edited
+            # again (so it counts as changed) and every target has a new file
+            r.write("a/pending.txt", "pending, edited after the checkpoint\n")
+            r.write("b/new.txt", "x\n")
+            r.write("c/new.txt", "x\n")
         if desc.get("listener"):
             # a `log tail` listener is attached while the victim runs and dies, and stays for what follows
             import subprocess
@@ -103,7 +110,8 @@ def scenario(desc):
                 return b"c"
             c.auto_points = on_hit
             env = s.env(c.env(points=["slot.", "run.", "result.", "pointer."]))
-            p = c.spawn("victim", [common.MONORAIL, "run", "-c", "build", "-t", "a", "b", "c", "--deps"], r.dir, env)
+            victim_args = ["run", "-c", "build"] if detected else ["run", "-c", "build", "-t", "a", "b", "c", "--deps"]
+            p = c.spawn("victim", [common.MONORAIL] + victim_args, r.dir, env)
             t_end = time.time() + 30
             arrived = lambda: len(c.children)
             gone = lambda: len([ch for ch in c.children if ch.state == "gone" and ch.release_seq is not None])
@@ -161,7 +169,7 @@ def scenario(desc):
                 res = r.mr("result", "show")
                 ls = r.mr("log", "show", "--stdout", "--stderr")
                 inv = (res.json() or {}).get("invocation")
-                if not (res.code == 0 and inv == "run -c build -t a b c --deps" and p_hist.parse_log_show(ls.out) == vic_logs):
+                if not (res.code == 0 and inv == " ".join(victim_args) and p_hist.parse_log_show(ls.out) == vic_logs):
                     viol += v1
         else:
             viol += observers(r, want_doc, want_logs, label)
@@ -212,6 +220,11 @@ def scenarios(tier):
     for st in KILL_STATES:
         out.append({"max": 2, "prefix": 1, "listener": True, "crash": {"kind": "kill", "state": list(st)}})
         out.append({"max": 10, "prefix": 10, "crash": {"kind": "kill", "state": list(st)}})
+    # the victim selects its targets by change detection (checkpoint with a pending entry that was edited since)
+    for name in POINTS:
+        out.append({"max": 2, "prefix": 1, "victim": "detected", "crash": {"kind": "point", "name": name}})
+    for st in KILL_STATES:
+        out.append({"max": 2, "prefix": 1, "victim": "detected", "crash": {"kind": "kill", "state": list(st)}})
     # retention setting changed between runs: prefix made with a larger (or smaller) max_retained_runs
     for (pm, k, maxr) in ([(5, 4, 3), (5, 5, 2), (2, 2, 4)] if tier == "quick" else [(5, 4, 3), (5, 5, 2), (5, 3, 2), (2, 2, 4), (3, 3, 5), (6, 6, 3)]):
         for name in POINTS:
